@@ -6,7 +6,7 @@ from vlib import *
 def vmd_job(prefix, mode, npolls=3, tier='quick'):
     d = {'MODE': mode, 'NPOLLS': npolls}
     return Job(name='%s_vmd_%s' % (prefix, 'session' if mode == 0 else 'acceptloop_%dpolls' % npolls), harness='vmd_session.c', sources=[], defines=d,
-               unwind=18, unwindset=['strlen.0:48', 'strncpy.0:112', 'read_all.0:10', 'write_all.0:10'], flags=['--slice-formula', '--memory-leak-check'], timeout=900 if tier == 'thorough' else 420, mem_gb=14, replay='none',
+               unwind=18, unwindset=['strlen.0:48', 'strncpy.0:112', 'read_all.0:10', 'write_all.0:10'], flags=['--slice-formula', '--memory-leak-check'], timeout=1500, mem_gb=14, replay='none',
                must_witness=['done'], group='daemon_session' if mode == 0 else 'daemon_accept_loop',
                desc={'subject': 'client_thread (one whole session)' if mode == 0 else 'vmd_server_run accept loop, %d poll rounds' % npolls,
                      'symbolic': 'every byte the client sends, every read/write outcome (EOF, error, EPIPE, short counts), loader/verifier/VM outcomes, program output chunks'
